@@ -11,11 +11,13 @@ import ChessVerif.Proofs.Search
 namespace Chess.Proofs.Minimax
 open Chess Chess.Spec Chess.Engine Chess.MoveGen Chess.Proofs.Search
 
+variable (pos : Bool)
+
 /-- `alphabeta` with this fuel is exact on well-formed successors -/
 def ABExact (k fuel : Nat) : Prop :=
   ∀ old mv rem cur alpha beta list st, (old.moveUnchecked mv).WF = true → ¬ sle beta alpha →
-    (alphabeta k fuel old mv rem cur alpha beta list st).2.polls ≤ k →
-    Agree alpha beta (value fuel old mv rem cur list) (alphabeta k fuel old mv rem cur alpha beta list st).1
+    (alphabeta pos k fuel old mv rem cur alpha beta list st).2.polls ≤ k →
+    Agree alpha beta (value pos fuel old mv rem cur list) (alphabeta pos k fuel old mv rem cur alpha beta list st).1
 
 theorem window_iff (pc : Color) (alpha beta : Score) :
     sle beta alpha ↔ leC pc (hiC pc alpha beta) (loC pc alpha beta) := by
@@ -69,15 +71,15 @@ theorem child_tail (k : Nat) (pc : Color) (lo0 hi V score alpha beta v : Score) 
     have hI' := (hstep hp).2 (fun h => hc (hcut.2 h))
     exact hrec _ _ _ _ (by rw [updateCutoff_hi, hhi]) hI' hk
 
-theorem children_exact (k fuel : Nat) (hAB : ABExact k fuel)
+theorem children_exact (k fuel : Nat) (hAB : ABExact pos k fuel)
     (board : Board) (pc : Color) (rem cur : Nat) (list : BoardList) (lo0 hi : Score) :
     ∀ n moves score alpha beta st V, Good moves → (mvsAt moves).length < n →
       (∀ m ∈ mvsAt moves, (board.moveUnchecked m).WF = true) →
       hiC pc alpha beta = hi → Inv pc lo0 hi V score (loC pc alpha beta) →
-      (children k fuel board pc rem cur list n moves score alpha beta st).2.polls ≤ k →
+      (children pos k fuel board pc rem cur list n moves score alpha beta st).2.polls ≤ k →
       AgreeC pc lo0 hi
-        (((mvsAt moves).map (fun m => value fuel board m rem cur list)).foldl (bstep pc) V)
-        (children k fuel board pc rem cur list n moves score alpha beta st).1 := by
+        (((mvsAt moves).map (fun m => value pos fuel board m rem cur list)).foldl (bstep pc) V)
+        (children pos k fuel board pc rem cur list n moves score alpha beta st).1 := by
   intro n
   induction n with
   | zero => intro moves score alpha beta st V _ hl; omega
@@ -110,12 +112,12 @@ theorem children_exact (k fuel : Nat) (hAB : ABExact k fuel)
           have hab := hAB board a rem cur alpha beta list { polls := st.polls + 1, evals := st.evals } hwa
             (fun h => hI.1 (by rw [← hhi]; exact (window_iff pc alpha beta).1 h))
           simp only [List.map_cons, List.foldl_cons]
-          exact child_tail k pc lo0 hi V score alpha beta (value fuel board a rem cur list)
-            (alphabeta k fuel board a rem cur alpha beta list { polls := st.polls + 1, evals := st.evals })
-            (fun sc a b s => children k fuel board pc rem cur list n moves' sc a b s)
-            (fun x => (t.map (fun m => value fuel board m rem cur list)).foldl (bstep pc) x)
+          exact child_tail k pc lo0 hi V score alpha beta (value pos fuel board a rem cur list)
+            (alphabeta pos k fuel board a rem cur alpha beta list { polls := st.polls + 1, evals := st.evals })
+            (fun sc a b s => children pos k fuel board pc rem cur list n moves' sc a b s)
+            (fun x => (t.map (fun m => value pos fuel board m rem cur list)).foldl (bstep pc) x)
             hhi hI hab
-            (fun sc a b => (children_spec k fuel (alphabeta_spec k fuel) n board pc rem cur list moves' sc a b _).1)
+            (fun sc a b => (children_spec pos k fuel (alphabeta_spec pos k fuel) n board pc rem cur list moves' sc a b _).1)
             (fun x => foldl_bstep_ge pc _ x)
             (fun sc a b V' h1 h2 h3 => by
               have := ih moves' sc a b _ V' s3 (by rw [s2]; omega)
@@ -131,24 +133,24 @@ theorem succ_WF (b : Board) (hwf : b.WF = true) (m : Move) (hm : m ∈ mvsOf (Mo
   exact hm
 
 /-- the part of `alphabeta` after the draw tests -/
-theorem node_exact (k fuel : Nat) (hAB : ABExact k fuel) (board : Board) (hwf : board.WF = true)
+theorem node_exact (k fuel : Nat) (hAB : ABExact pos k fuel) (board : Board) (hwf : board.WF = true)
     (rem cur : Nat) (alpha beta : Score) (list : BoardList) (st : St) (hw : ¬ sle beta alpha)
     (c : Bool) (moves : MoveGen) (h0 : moves.promoIdx = 0) (hlen : moves.moves.length ≤ 18)
     (hsub : ∀ m ∈ mvsOf moves, m ∈ mvsOf (MoveGen.legals board))
-    (hk : (if c = true then (eval board, ({ polls := st.polls, evals := st.evals + 1 } : St))
-      else children k fuel board board.turn rem cur list 5000 moves (worst board.turn) alpha beta st).2.polls ≤ k) :
+    (hk : (if c = true then (eval pos board, ({ polls := st.polls, evals := st.evals + 1 } : St))
+      else children pos k fuel board board.turn rem cur list 5000 moves (worst board.turn) alpha beta st).2.polls ≤ k) :
     Agree alpha beta
-      (if c = true then eval board
-       else best board.turn ((mvsOf moves).map (fun m => value fuel board m rem cur list)))
-      (if c = true then (eval board, ({ polls := st.polls, evals := st.evals + 1 } : St))
-      else children k fuel board board.turn rem cur list 5000 moves (worst board.turn) alpha beta st).1 := by
+      (if c = true then eval pos board
+       else best board.turn ((mvsOf moves).map (fun m => value pos fuel board m rem cur list)))
+      (if c = true then (eval pos board, ({ polls := st.polls, evals := st.evals + 1 } : St))
+      else children pos k fuel board board.turn rem cur list 5000 moves (worst board.turn) alpha beta st).1 := by
   cases c with
   | true => exact agree_refl _ _ _
   | false =>
     simp only [Bool.false_eq_true, if_false] at hk ⊢
     rw [agree_iff board.turn]
     have hat := mvsAt_of_zero moves h0
-    have := children_exact k fuel hAB board board.turn rem cur list (loC board.turn alpha beta)
+    have := children_exact pos k fuel hAB board board.turn rem cur list (loC board.turn alpha beta)
       (hiC board.turn alpha beta) 5000 moves (worst board.turn) alpha beta st (worst board.turn)
       (good_of_zero moves h0) (by rw [hat]; exact Entries.mvsOf_length_lt moves hlen)
       (by rw [hat]; exact fun m hm => succ_WF board hwf m (hsub m hm)) rfl
@@ -156,7 +158,7 @@ theorem node_exact (k fuel : Nat) (hAB : ABExact k fuel) (board : Board) (hwf : 
     rw [hat] at this
     exact this
 
-theorem alphabeta_succ_exact (k fuel : Nat) (hAB : ABExact k fuel) : ABExact k (fuel + 1) := by
+theorem alphabeta_succ_exact (k fuel : Nat) (hAB : ABExact pos k fuel) : ABExact pos k (fuel + 1) := by
   intro old mv rem cur alpha beta list st hwf hw hk
   rw [alphabeta.eq_2] at hk ⊢
   rw [value.eq_2]
@@ -182,23 +184,23 @@ theorem alphabeta_succ_exact (k fuel : Nat) (hAB : ABExact k fuel) : ABExact k (
   have hlen : (MoveGen.legals (old.moveUnchecked mv)).moves.length ≤ 18 := Legal.wf_entries_le _ hwf
   by_cases h5 : (rem == 0 && (old.raw.get mv.dest).isSome) = true
   · simp only [h5, if_true] at hk ⊢
-    exact node_exact k fuel hAB (old.moveUnchecked mv) hwf (rem - 1) (cur + 1) alpha beta list' st hw _ _ rfl
+    exact node_exact pos k fuel hAB (old.moveUnchecked mv) hwf (rem - 1) (cur + 1) alpha beta list' st hw _ _ rfl
       (by
         show (compact _ _).length ≤ 18
         rw [(compact_perm _ _).length_eq]
         exact hlen)
       (fun m hm => (avail_legals_iff _ m).1 ((mem_mvsOf_setMask _ _ m).1 hm).1) hk
   · simp only [h5, Bool.false_eq_true, if_false] at hk ⊢
-    exact node_exact k fuel hAB (old.moveUnchecked mv) hwf (rem - 1) (cur + 1) alpha beta list' st hw _ _ rfl
+    exact node_exact pos k fuel hAB (old.moveUnchecked mv) hwf (rem - 1) (cur + 1) alpha beta list' st hw _ _ rfl
       hlen (fun m hm => hm) hk
 
-theorem alphabeta_exact (k : Nat) : ∀ fuel, ABExact k fuel := by
+theorem alphabeta_exact (k : Nat) : ∀ fuel, ABExact pos k fuel := by
   intro fuel
   induction fuel with
   | zero =>
     intro old mv rem cur alpha beta list st _ _ _
     rw [alphabeta.eq_1, value.eq_1]
     exact agree_refl _ _ _
-  | succ fuel ih => exact alphabeta_succ_exact k fuel ih
+  | succ fuel ih => exact alphabeta_succ_exact pos k fuel ih
 
 end Chess.Proofs.Minimax
